@@ -133,6 +133,9 @@ Cmd ==
                                    "the move record of show does not show what was played", [got |-> e.show.rec, want |-> rootrec])
                        ELSE {}))
             /\ UNCHANGED <<rootrec, pending, root, sroot, go, waiting>>
+       [] e.kind = "uci" ->
+            /\ Report(common \cup F(Has(e, "uciok") => e.uciok, "C14", "uci was not answered with uciok", [after |-> e.text]))
+            /\ UNCHANGED <<rootrec, pending, root, sroot, go, waiting>>
        [] e.kind = "quit" ->      \* the GUI gives up on whatever is still being searched
             /\ Report(common) /\ pending' = 0 /\ UNCHANGED <<rootrec, root, sroot, go, waiting>>
        [] OTHER -> Report(common) /\ UNCHANGED <<rootrec, pending, root, sroot, go, waiting>>
